@@ -42,6 +42,7 @@ type Op struct {
 	Code []byte `json:"code,omitempty"`
 	Del  bool   `json:"del,omitempty"`
 	Idx  []int  `json:"idx,omitempty"`
+	Lazy bool   `json:"lazy,omitempty"` // reopen without reading the validators (implementation-only histories)
 }
 
 type History struct {
@@ -221,8 +222,10 @@ func (e *env) exec(o Op) (ret int64, panicked bool, panicMsg string) {
 			panic(err)
 		}
 		e.st = nst
-		for _, id := range uVal {
-			nst.GetValidatorByMainAddr(valAddr(id))
+		if !o.Lazy {
+			for _, id := range uVal {
+				nst.GetValidatorByMainAddr(valAddr(id))
+			}
 		}
 	default:
 		panic("unknown op " + o.K)
@@ -876,7 +879,8 @@ type gen struct {
 	stack []int64 // ids the generator believes valid
 	stale []int64
 	dead  bool
-	dlg   bool // oracle-only histories may call UpdateDelegation
+	dlg   bool     // oracle-only histories may call UpdateDelegation
+	tomb  []uint64 // accounts self-destructed and then funded (tombstones with a balance after Finalise)
 }
 
 func (g *gen) emit(o Op) {
@@ -926,7 +930,17 @@ func (g *gen) amount() string {
 func (g *gen) accountOp() {
 	r := g.r
 	a := g.addr()
-	switch r.Intn(17) {
+	switch r.Intn(18) {
+	case 17:
+		// value sent to a contract after its SELFDESTRUCT in the same transaction: Finalise leaves a
+		// deleted object that still holds a balance; a later CreateAccount / GetOrNewStateObject must
+		// not hand that balance to the new account (fix af1e035)
+		if !g.e.st.Exist(addrOf(a)) {
+			g.emit(Op{K: "setnonce", A: a, B: 1})
+		}
+		g.emit(Op{K: "suicide", A: a})
+		g.emit(Op{K: "addbal", A: a, V: fmt.Sprint(1 + r.Intn(9))})
+		g.tomb = append(g.tomb, a)
 	case 0, 1, 2:
 		g.emit(Op{K: "addbal", A: a, V: g.amount()})
 	case 3:
@@ -957,6 +971,9 @@ func (g *gen) accountOp() {
 	case 12:
 		// as in evm.create / evm.Call, CreateAccount is always followed by a change of the new object
 		// (resetObjectChange alone does not mark the address dirty, exactly as upstream)
+		if len(g.tomb) > 0 && r.Chance(60) {
+			a = g.tomb[r.Intn(len(g.tomb))]
+		}
 		g.emit(Op{K: "createacct", A: a})
 		if r.Bool() {
 			g.emit(Op{K: "setnonce", A: a, B: 1})
@@ -1259,7 +1276,7 @@ func genHistory(r *vf.Rng, style int, dlg bool) []Op {
 			case 0:
 				g.emit(Op{K: "iroot", Del: r.Chance(80)})
 			case 1:
-				g.emit(Op{K: "reopen", Del: r.Chance(80)})
+				g.emit(Op{K: "reopen", Del: r.Chance(80), Lazy: g.dlg && r.Bool()})
 			default:
 				g.emit(Op{K: "finalise", Del: r.Chance(85)})
 			}
@@ -1283,7 +1300,7 @@ func genHistory(r *vf.Rng, style int, dlg bool) []Op {
 			case x < 33:
 				g.emit(Op{K: "iroot", Del: r.Chance(80)})
 			case x < 35:
-				g.emit(Op{K: "reopen", Del: r.Chance(80)})
+				g.emit(Op{K: "reopen", Del: r.Chance(80), Lazy: g.dlg && r.Bool()})
 			case x < 37:
 				g.emit(Op{K: "prepare", A: uTh[r.Intn(3)], B: uint64(r.Intn(4))})
 			case x < 37+valShare*60/100:
@@ -1296,7 +1313,7 @@ func genHistory(r *vf.Rng, style int, dlg bool) []Op {
 	if !g.dead {
 		// close the block and look at what was written
 		if r.Chance(70) {
-			g.emit(Op{K: "reopen", Del: r.Chance(80)})
+			g.emit(Op{K: "reopen", Del: r.Chance(80), Lazy: g.dlg && r.Bool()})
 		} else {
 			g.emit(Op{K: "iroot", Del: r.Chance(80)})
 		}
@@ -1535,7 +1552,7 @@ func valid(h []Op) bool {
 
 func implOnly(h []Op) bool {
 	for _, o := range h {
-		if o.K == "upddelegation" {
+		if o.K == "upddelegation" || o.Lazy {
 			return true
 		}
 	}
